@@ -34,15 +34,19 @@ def want_spec(line, op, c):
 
 
 def read_cases(rng, c, payload, pid, out, kind, cutsets, interleave=True):
-    lines, meta = [], []
+    lines, meta, hyp = [], [], []
     for cuts in cutsets:
         items = L.items_for(rng, payload, cuts, pid, interleave=interleave)
         lines.append(L.stream_line(pid, items))
+        hyp.append("spec.hyp.read %s %d %d %s" % (L.carrier_args(c), c["stuffing"], pid, fmt_val(items)))
         meta.append(cuts)
-    streams = vlib.run_model(lines)
+    replies = vlib.run_model(lines + hyp)
+    streams, hyps = replies[:len(lines)], replies[len(lines):]
     nonempty = len(c["sec"]["streams"]) > 0
-    for s, cuts in zip(streams, meta):
+    for s, cuts, h in zip(streams, meta, hyps):
         ok = nonempty and not (set(cuts) & set(c["inner_ends"]))
+        if ok and h != "1":      # the Coq checker of L4's hypotheses (hyp_readb) disagrees with the generator: not a deciding case
+            ok = False; kind = "hyp-false"
         if ok:
             want_spec("pmt.read %s %d" % (s, pid), "spec.read", c)
         out.append(Case("pmt.read %s %d" % (s, pid), kind=kind if nonempty else "read-empty-streams-K1",
@@ -65,7 +69,11 @@ def gen(rng, tier):
         c["stuffing"] = {"none": 0, "few": rng.randrange(1, 5), "fill": (184 - c["unit_len"] % 184) % 184,
                          "many": rng.randrange(1, 400)}[style]
     payloads = L.ser_payloads(carriers)
-    for c, p in zip(carriers, payloads):
+    wfs = L.check_carriers(carriers)
+    for c, p, w in zip(carriers, payloads, wfs):
+        if not w:       # wf_carrierb of the Coq spec rejects it: generator drift, nothing is decided on this carrier
+            out.append(Case("pmt.parse %s" % hx(p), kind="hyp-false", decides=False, nontrivial=False))
+            continue
         wf = "wf"
         want_spec("pmt.parse %s" % hx(p), "spec.parse", c)
         out.append(Case("pmt.parse %s" % hx(p), kind="parse-" + wf, theorem="C06_L2_parse_tables"))
@@ -83,7 +91,11 @@ def gen(rng, tier):
     for c in smalls:
         c["stuffing"] = rng.choice([0, 0, 1, 3])
     spay = L.ser_payloads(smalls)
-    for c, p in zip(smalls, spay):
+    swf = L.check_carriers(smalls)
+    for c, p, w in zip(smalls, spay, swf):
+        if not w:
+            out.append(Case("pmt.parse %s" % hx(p), kind="hyp-false", decides=False, nontrivial=False))
+            continue
         want_spec("pmt.parse %s" % hx(p), "spec.parse", c)
         out.append(Case("pmt.parse %s" % hx(p), kind="parse-wf", theorem="C06_L2_parse_tables"))
         out.append(Case("pmt.doneall %s" % hx(p), kind="doneall", theorem="C06_L3_done_prefix"))
